@@ -652,5 +652,11 @@ var knownFields = deepdump.Known{
 	"pfcp.RxTransaction": {"server!", "raddr!", "seq", "id", "timeout", "msgBuf", "timer!", "log!"},
 }
 
+// Addr is the server's listen address.
+func (v *VServer) Addr() *net.UDPAddr {
+	a, _ := net.ResolveUDPAddr("udp4", v.S.listen)
+	return a
+}
+
 // RecoveryTime exposes the process-wide recovery time stamp (compared for equality only).
 func (v *VServer) RecoveryTime() time.Time { return v.S.recoveryTime }
